@@ -14,7 +14,7 @@ EXPLANATION = (
     "strains() every field of the returned *Strains is into_current_strain_peaks().into_vec() of a skill computed by "
     "DifficultyValues::calculate(difficulty parameter, converted map) — the same call as in difficulty(). R3: strains() "
     "sees the same preprocessed map as difficulty() (sibling rule). R4 (recorded): which difficulty_value each skill "
-    "resolves to. Finiteness / non-negativity of peaks and run-length re-expansion are NOT decided.")
+    "resolves to. R5: strains() and difficulty() reach the same set of Difficulty::get_* settings. Finiteness / non-negativity of peaks and run-length re-expansion are NOT decided.")
 
 TRAIT = 'any::difficulty::skills::StrainSkill'
 
@@ -227,5 +227,17 @@ def run(ctx):
     r2(ctx, F)
     C07.r2_r4(ctx, F, r2=None, r4='C16-R3', methods=['difficulty', 'strains'])
     r4(ctx, F)
+    # ---- R5: strains() and difficulty() consult the same Difficulty settings
+    import entries
+    for mode in MODES:
+        a = entries.difficulty_getters(F, ['%s::difficulty::difficulty' % mode])
+        b = entries.difficulty_getters(F, ['%s::strains::strains' % mode])
+        if not a or not b:
+            ctx.violation('C16-R5', 'anchor-missing:' + mode, 'strains / difficulty entry of %s not found' % mode)
+            continue
+        diff = set(a) ^ set(b)
+        ctx.require(not diff, 'C16-R5', mode + ':settings', '%s strains() and difficulty() consult the same Difficulty settings %s' % (mode, sorted(a)),
+                    bad='%s: strains() and difficulty() consult different Difficulty settings (%s only on one side): the strains no longer explain the stars for that setting'
+                        % (mode, sorted(diff)))
     ctx.not_decided('finiteness and non-negativity of the peaks; equal section counts across skills; re-expansion of zero runs by '
                     'StrainsVec::into_vec; the numeric re-aggregation identity')
